@@ -791,6 +791,42 @@ func runC19Args(k int, rng *Rng) CaseResult {
 	if !w.failed() {
 		w.SearchSweep(20)
 	}
+	// field names of a type with pointer fields, a named string and a struct embedded through a
+	// (nil or set) pointer, whose field is also reachable under its promoted name: no judgement of
+	// the answers, the panic / hang guards watch
+	if k%4 == 1 && !w.failed() {
+		sch := sod.DefaultSchema
+		sch.Cache, sch.Compress = cfg.Cache, cfg.Compress
+		var e error
+		w.guardedCall("Create(PtrRec)", func() { e = w.db.Create(&PtrRec{}, sch) })
+		v := "x"
+		objs := []*PtrRec{{K: 1}, {K: 2, PEmb: &PEmb{EY: 3}, PS: &v, PN: &PNest{S: "s"}, NS: "n"}}
+		for _, o := range objs {
+			if e == nil && !w.failed() {
+				o := o
+				w.guardedCall("InsertOrUpdate(PtrRec)", func() { e = w.db.InsertOrUpdate(o) })
+			}
+		}
+		for _, f := range []string{"EY", "PEmb.EY", "PEmb", "PS", "PN.PS", "PN", "V", "V.S", "NS", "K", "Item", "PEmb.Nope", "EY.X"} {
+			for _, op := range []string{"=", "!=", "<", "~=", "<>"} {
+				for _, p := range probes {
+					if !rng.P(0.12) || abortChild || w.failed() || e != nil {
+						continue
+					}
+					triples++
+					stats.SetAdd("arg_triples", fmt.Sprintf("PtrRec.%s|%s|%s", f, op, p.name))
+					w.logf("Search(PtrRec, %q, %q, %s)", f, op, p.name)
+					w.guardedCall("Search", func() {
+						s := w.db.Search(&PtrRec{}, f, op, p.v)
+						s.Len()
+						s.Collect()
+						s.And(f, op, p.v).One()
+						w.db.Search(&PtrRec{}, "K", ">=", 0).And(f, op, p.v).Or(f, op, p.v).Len()
+					})
+				}
+			}
+		}
+	}
 	res := w.finish(append(w.absOps, fmt.Sprint(k)), triples > 0, nil)
 	if k < 2 {
 		res.Sample = map[string]interface{}{"config": cfg.String(), "objects": w.m.Len(), "argument_triples_tried": triples, "fields": argFields, "operators": argOps}
